@@ -109,10 +109,11 @@ func (r *Raft) onVoteRequest(req *voteReq) (rpcResult, error) {
 	// RequestVote requests used for leadership transfer can include
 	// a special flag to indicate this behavior:
 	// "I have permission to disrupt the leader—it told me to!"
-	if !req.transfer && r.leader != 0 {
-		if req.src == r.leader {
-			return success, nil
-		}
+	//
+	// a request from the known leader itself (it lost its quorum and is
+	// campaigning again) is processed normally, so that any vote it gets
+	// is recorded and persisted like every other vote.
+	if !req.transfer && r.leader != 0 && req.src != r.leader {
 		return leaderKnown, nil
 	}
 
